@@ -92,7 +92,7 @@ PROPS = {
         ],
     },
     "C19": {
-        "lean_modules": ["TableauVerif.Props.C19", "TableauVerif.Props.C20Emit", "TableauVerif.Props.C20EmitFrac", "TableauVerif.Props.C20EmitAll"],
+        "lean_modules": ["TableauVerif.Props.C19", "TableauVerif.Props.C20Emit", "TableauVerif.Props.C20EmitFrac", "TableauVerif.Props.C20EmitAll", "TableauVerif.Props.C20Valid"],
         "oracles": ["c19.origin", "c19.yaml", "c20.emitts"],
         "streams": [
             ("e2e.C19.origin", 240, 12000, 8),
@@ -327,7 +327,7 @@ PROPS = {
         ],
     },
     "C20": {
-        "lean_modules": ["TableauVerif.Props.C20", "TableauVerif.Props.C20Civil", "TableauVerif.Props.C20Dur", "TableauVerif.Props.C20Days", "TableauVerif.Props.C06Range", "TableauVerif.Props.C20Emit", "TableauVerif.Props.C20EmitFrac", "TableauVerif.Props.C20EmitAll"],
+        "lean_modules": ["TableauVerif.Props.C20", "TableauVerif.Props.C20Civil", "TableauVerif.Props.C20Dur", "TableauVerif.Props.C20Days", "TableauVerif.Props.C06Range", "TableauVerif.Props.C20Emit", "TableauVerif.Props.C20EmitFrac", "TableauVerif.Props.C20EmitAll", "TableauVerif.Props.C20Valid"],
         "oracles": ["c20.ts", "c20.gen", "c20.dur", "c20.emitz", "c20.emitts", "c19.origin"],
         "streams": [
             ("corr.xproto.parseTime", 20000, 600000),
